@@ -148,7 +148,8 @@ def stepEv (d : Driver) (info : Generated.Features.Info) (neg : Neg) (p : Params
   | .cfgRead tr =>
     if s.cfgRun then .ok s else
     let g := s.cfgGroups + 1
-    if p.cfgFail = g then .error (failWith s [.cfg false] tr p.cfgErr)
+    -- `InvalidParam`: the reads themselves succeed, the content is rejected (9p: zero-length mount tag)
+    if p.cfgFail = g then .error (failWith s [.cfg (p.cfgErr == .invalidParam)] tr p.cfgErr)
     else .ok { s with evs := s.evs ++ [.cfg true], cfgRun := true, cfgGroups := g }
   | .queueNew q ind ev ap tr =>
     let c : Layout.Cfg :=
